@@ -802,7 +802,12 @@ class Lib:
                 v.frozen = True
             try:
                 kt = c.kty.encode(k)
-                vt = c.vty.encode(v if isinstance(c.vty, (Opt, _AnyT)) else it.ctx.force(v))
+                fv = v if isinstance(c.vty, (Opt, _AnyT)) else it.ctx.force(v)
+                if isinstance(fv, VOpaque) and fv.t.sort() == VAL_U and not isinstance(c.vty, (Opt, _AnyT)):
+                    # a statically untyped value stored into a typed dict: case split on what it is; the readings that do not
+                    # fit the value type leave the subset unless the path condition excludes them
+                    fv = it.ctx.force(unbox(fv.t))
+                vt = c.vty.encode(fv)
             except EncodeError as e:
                 raise Unsupported('dict item of unexpected type: %s' % e, node)
             nm = VMap(z3.Store(c.t, kt, self._map_opt(c).some(vt)), c.kty, c.vty)
@@ -994,6 +999,9 @@ class Lib:
         from . import libmodels, fsmodel
         libmodels.install(self)
         fsmodel.install(self)
+
+
+from .values import _U as VAL_U
 
 
 class _AnyT:
